@@ -18,7 +18,10 @@ def _nodes(n):
 
 
 def _all_nodes(case):
-    return list(_nodes(case.get("a"))) + list(_nodes(case.get("b")))
+    res = list(_nodes(case.get("a"))) + list(_nodes(case.get("b"))) + list(_nodes(case.get("t")))
+    for e in case.get("extra") or []:
+        res += list(_nodes(e))
+    return res
 
 
 def _valid_utf8(bs):
@@ -108,10 +111,15 @@ def candidates(case):
             res.append(dict(n, u=u[len(u) // 2:]))
         return res
 
-    for side in ("a", "b"):
-        for v in variants(case.get(side))[:12]:
-            out.append(dict(case, **{side: v}))
-    return out[:24]
+    if case.get("extra"):
+        out.append(dict(case, extra=[]))
+    for side in ("a", "b", "t"):
+        if isinstance(case.get(side), dict):
+            for v in variants(case.get(side))[:12]:
+                if side == "t" and v.get("k") == "var":
+                    continue
+                out.append(dict(case, **{side: v}))
+    return out[:30]
 
 
 # ------------------------------------------------------------------------------------------------
@@ -227,7 +235,10 @@ CFG = {
              "bytes, valid and invalid UTF-8), VerifNewImported; alphabet ASCII, Latin-1, BMP (incl. U+FEFF, U+2028, U+FFFD), "
              "astral pairs, lone surrogates. 50% pairs derived from one target unit string by two independent derivations "
              "(equal by construction), 25% from a one-edit mutation of it (order comparison), 25% random trees with "
-             "out-of-range arguments. The Coq model evaluates both trees (oracle). non-trivial = at least one operation node "
+             "out-of-range arguments; 15% of all cases are DAGs: one intermediate value bound to a variable and used by two "
+             "later operations plus up to 6 more concatenations in between, everything observed afterwards (aliasing). "
+             "Every case is evaluated several times with fresh leaf values so that Map/Set/hash observations are each made "
+             "first on values nothing has scanned yet, and again after length/charCodeAt forced the scan. The Coq model evaluates both trees (oracle). non-trivial = at least one operation node "
              "and a non-empty value; distinct = by hash of the case"),
     "theorem_names": ["nf_closed_constructors", "nf_closed", "builder_nf_units", "nf_closed_trees", "constructors_eq_spec",
                       "strop_eq_spec", "concat_fast_path_sound", "builtins_eq_spec", "tree_eq_spec", "eq_hash_key_agree",
